@@ -9,12 +9,12 @@ CHECKS = {
     # id: (category, technique, text, note, design_ref)
     "C10": ("model_checking",
             "TLC exhaustive state exploration of the index algebra (spec/Voigt.tla, C10.tla) + oracle-table replay into c_/e_ + NDJSON trace validation (Trace_Voigt.tla)",
-            "The complete finite domain (351x351 pairs of spellings, all out-of-range neighbours) is explored by TLC, which decides the quotient/multiplicity/partition theorems; the exported oracle table is replayed through cij.util.c_/e_ for every spelling and every pair (eq+hash), and recorded library calls are validated as spec steps. Exhaustive in both directions, which is the right level for a finite domain.",
+            "The complete finite domain (351x351 pairs of spellings, all out-of-range neighbours) is explored by TLC, which decides the quotient/multiplicity/partition theorems; the exported oracle table is replayed through cij.util.c_/e_ for every spelling and every pair (eq+hash), the rejection table is also replayed in a `python -O` subprocess, and recorded library calls (thorough: also the calls made while the repository's own tests run) are validated as spec steps. Exhaustive in both directions, which is the right level for a finite domain.",
             "Trusted: TLC, CommunityModules Json, the 40-line argument builder of the harness. 'Rejected' = any exception.",
             "DESIGN.md section 4 C10"),
     "C01": ("model_checking",
             "TLC decides the strain-derivative identities as equalities of polynomial normal forms (spec/Thermo.tla, Poly.tla, C01.tla) and model-checks the lazily evaluated contribution object; exported normal forms and TLC-simulated read orders are replayed on the real classes",
-            "The identities (zero-point and thermal part, both non-shear classes, aggregation with Gamma mask and normalised weights, T=0 rule) are decided symbolically by TLC for all values of the atoms; conformance replays the exported normal forms on duck-typed calculators over random spectra within the stated quantifier and replays simulated access orders on real objects. Symbolic decision + sampled conformance is the strongest level available for a real-valued identity.",
+            "The identities (zero-point and thermal part, both non-shear classes, aggregation with Gamma mask and normalised weights, T=0 rule) are decided symbolically by TLC for all values of the atoms; conformance replays the exported normal forms on duck-typed calculators over random spectra within the stated quantifier (unsorted and integer-typed temperature grids, coincident and singleton extents, twin cases: the same grids with another spectrum back to back) and replays simulated access orders on real objects (the values at every read; not which intermediate results the object caches). Symbolic decision + sampled conformance is the strongest level available for a real-valued identity.",
             "Trusted: the four differentiation rules stated in Thermo.tla, float evaluation (expm1) in cv/polyeval.py, CODATA literals (envelope 1e-9 on hc/k, rtol 1e-7).",
             "DESIGN.md section 4 C01"),
     "C02": ("model_checking",
@@ -34,17 +34,17 @@ CHECKS = {
             "DESIGN.md section 4 C04"),
     "C08": ("model_checking",
             "TLC decides equality of the relation subspace and the Laue-invariant subspace for the nine systems exactly (group closure, action on the 21-dim tensor space, Reynolds projector, rational null space; spec/Symmetry.tla, Fill.tla, LinAlg.tla, C08.tla) on relations regenerated from /repo; fill replay on TLC-computed invariant tensors",
-            "Both subspace inclusions and the dimensions are decided exactly by TLC for all nine systems on the relation files of the current tree (a sign or factor edited in a file is a TLC counterexample naming system and inclusion). The fill half replays TLC-computed invariant tensors restricted to sufficient subsets (from the C09 lattice) through fill_cij and apply_symetry_on_elast_data.",
+            "Both subspace inclusions and the dimensions are decided exactly by TLC for all nine systems on the relation files of the current tree (a sign or factor edited in a file is a TLC counterexample naming system and inclusion). The fill half replays TLC-computed invariant tensors restricted to sufficient subsets (from the C09 lattice) through fill_cij (custom row indexes, components that vanish at one volume or at all, tiny components, many-decimal values, all 21 columns) and apply_symetry_on_elast_data.",
             "Trusted: the generators of Symmetry.tla (textbook standard setting), the independent relation-file parser cv/relparse.py, float comparison 1e-9.",
             "DESIGN.md section 4 C08"),
     "C09": ("model_checking",
             "TLC explores the lattice of supplied-component subsets (49k states) deciding 'determined' by exact integer elimination in two formulations that must agree (spec/C09.tla); dumped states and the exported refusal table replayed through fill_cij and `cij fill` under flag and environment variants",
-            "Every subset of the non-vanishing components of six systems (top of the lattice for the three large ones) is a TLC state with the exact decision; the implementation is run on a stratified sample of those states x value class x flags x environment (column order, case, int columns, extra columns, directory named like the system, relations-file path) and through the CLI.",
+            "Every subset of the non-vanishing components of six systems (top of the lattice for the three large ones) is a TLC state with the exact decision; the implementation is run on a stratified sample of those states x value class x flags x environment (column order, case, integer and mixed integer/float columns, extra columns, explicit zero columns, directory or relative path named like a system, case-sensitive relations-file paths with blanks) and through the CLI (flags, relations path); a refusal leaves the caller's table untouched.",
             "Trusted: value classes are consistent or off by 50 GPa (nothing near the tolerance); (under-determined, inconsistent, ignore_rank) not asserted; 'raises' = any exception.",
             "DESIGN.md section 4 C09"),
     "C16": ("model_checking",
             "TLC explores all 144x144 pairs of configuration trees with the merge laws as invariants and enumerates every single-field perturbation of the documented fields with its verdict (spec/Config.tla, C16.tla); full merge table and perturbation table replayed through update_config / apply_default_config / read_config (YAML and JSON)",
-            "The merge laws hold in every one of the 20736 states and the implementation reproduces the whole table (inputs unmodified, idempotent); validation is replayed for every documented field x value class on three valid bases in both file formats. Exhaustive on the finite tree domain, complete over single-field perturbations.",
+            "The merge laws hold in every one of the 20736 states and the implementation reproduces the whole table (inputs unmodified, idempotent); the merge commutes with nesting (NestLaw), replayed down to depth six; validation is replayed for every documented field x value class on four valid bases (one with static_only) in both file formats; a caller editing a returned configuration does not pollute the packaged defaults. Exhaustive on the finite tree domain, complete over single-field perturbations.",
             "Trusted: value classes the documentation is silent on are not generated; 'rejected' = any exception; trees over 2 keys / 2 leaves / depth 2.",
             "DESIGN.md section 4 C16"),
     "C05": ("model_checking",
@@ -59,17 +59,17 @@ CHECKS = {
             "DESIGN.md section 4 C06"),
     "C07": ("model_checking",
             "TLC decides that the 6x6 formulas are the contractions of the full fourth-rank tensors (identities of linear forms, spec/Averages.tla, C07.tla); exported forms replayed on stiffness fields injected into CijVolumeBaseInterface; every (T,V) sample validated by Trace_Averages.tla",
-            "Symbolic identities for all tensors at model level; implementation bound on positive-definite fields of all nine systems with random component subsets, masses and volumes: averages against the exported forms (1e-9), compliance inverse, Hill mean, bounds and rho v^2 relations in TLC on every sample.",
-            "Trusted: positive definiteness by numpy eigvalsh (logged per sample), constants of cv/consts.py.",
+            "Symbolic identities for all tensors at model level; implementation bound on positive-definite fields of all nine systems with random component subsets, masses and volumes (incl. weakly coupled, very soft and strongly anisotropic tensors) injected into the volume-base interface, and on real calculations through public attributes only: averages against the exported forms (1e-9), compliance inverse, Hill mean, bounds and rho v^2 relations in TLC on every sample.",
+            "Trusted: positive definiteness by numpy eigvalsh (logged per sample), constants of cv/consts.py; nearly singular rows whose products would overflow TLC's 32-bit integers are left out of the integer records (float clauses still apply).",
             "DESIGN.md section 4 C07"),
     "C15": ("model_checking",
             "TLC model of the documented writer rule table (spec/Writer.tla: one rule per keyword, no file-name collisions, S/T selection) exporting the expectation table; replay of every keyword x base through ResultsWriter and write_output with files re-read by an independent parser",
-            "All 35 keywords/aliases on both bases on data sets with different grids and component sets: set of files created, row/column labels, values x unit factor, alias identity, availability, file-name and unit overrides.",
-            "Trusted: the frozen rule table is the documentation as of the pinned commit; printed precision 15 digits.",
+            "All 35 keywords/aliases on both bases on data sets with different grids and component sets: set of files created, row/column labels, values x unit factor to the PRINTED precision of every entry, alias identity, availability, file-name and unit overrides (moduli, averages, velocities, volumes), a second write into the same directory, one writer / one output list naming a variable several times, repeated write_output, sampling steps different from the grid steps, decimal pressure steps, square tables.",
+            "Trusted: the frozen rule table is the documentation as of the pinned commit; unit factors as the dependency pint defines them (cross-checked with CODATA literals to 1e-8).",
             "DESIGN.md section 4 C15"),
     "C11": ("model_checking",
             "TLC explores all (method, order, nv) calls with the documented admissibility and node-subsampling rule, derives the exact (omega, gamma, V dgamma/dV) triples of test polynomials symbolically (Poly!Deriv) and the plot table (spec/Interp.tla, C11.tla); every admissible call replayed through interpolate_modes; ModePlotter with recording axes",
-            "All 335 admissible calls for nv in 4..12 are replayed on power-law tables with pairwise distinct exponents per (q,m), on polynomial tables up to the call's exactness degree and on generic tables (consistency of the returned triple); the plot mapping is checked for n=0,1,2.",
+            "All 335 admissible calls for nv in 4..12 are replayed on power-law tables with pairwise distinct exponents per (q,m) (table shapes incl. as many q-points as modes; equal and unequal volume spacing with the same end points), on polynomial tables up to the call's exactness degree and on generic tables (consistency of the returned triple); the plot mapping is checked for n=0,1,2 with fresh and re-used plotters, whatever the order or grouping in which the curves are drawn.",
             "Trusted: scipy interpolators; per-method tolerances (Lagrange in the monomial basis loses ~1e-5 with six nodes); finite-difference consistency tolerances.",
             "DESIGN.md section 4 C11"),
     "C12": ("model_checking",
@@ -94,18 +94,18 @@ CHECKS = {
             "DESIGN.md section 4 C17"),
     "C19": ("model_checking",
             "TLC enumerates every extraction (grids of 2-4 nodes, spacings 1/2/5, tie-free requests, both orientations, 1-3 variables) with invariants NearestIsNearest / OwnVariable / Orientation (spec/Extract.tla); enumerated cases replayed through `cij extract` on coordinate-encoding tables; extract-geotherm node identity, pass-through, refinement",
-            "8 580 extraction cases decided by TLC; a random 400 (quick) / all (thorough) replayed through the command line on tables whose entries encode (variable, iT, iP), so a neighbouring index, a transposed axis or the wrong file shows in the number; decoy files present. Geotherm: node identity to the printed precision, pass-through columns, error decreasing under grid refinement.",
+            "8 580 extraction cases decided by TLC; a random 400 (quick) / all (thorough) replayed through the command line on tables whose entries encode (variable, iT, iP), so a neighbouring index, a transposed axis or the wrong file shows in the number; realistic output directories (names that are prefixes of other names, both bases), fractional and zero-based grids, tables of 80-200 rows. Geotherm: node identity to the printed precision incl. corners and the last row, pass-through columns, default and announced column names, error decreasing under grid refinement.",
             "Trusted: ties are not generated; pandas prints six significant digits (node identity 1e-5); convergence is a float experiment.",
             "DESIGN.md section 4 C19"),
     "C20": ("model_checking",
             "TLC runs the greedy assignment machine (spec/EvecSort.tla) on every 2x2 (entries 0..3) and 3x3 (entries 0..2) overlap matrix with invariants DominantRecovered / PermutationUnlessZero; all 19 939 matrices replayed through evec_sort; constructed unitary cases to n=60; evec_disp2eig; matdyn files laid out per the specification's EigFile through evec_load",
-            "Exhaustive on small integer overlap matrices in both model and implementation; constructed cases cover real/complex unitary bases with permutations, phases and <= 5 % perturbation up to n = 60; the conversion restores orthonormal rows for random masses; generated matdyn files (1-6 q-points, 3-60 modes) are compared number by number.",
+            "Exhaustive on small integer overlap matrices in both model and implementation; constructed cases cover real/complex unitary bases with permutations, phases and <= 5 % perturbation up to n = 60; families of dimension mismatches (lists and arrays) are rejected; the conversion restores orthonormal rows for random masses, also for M x 3N inputs and when the same array is converted twice; generated matdyn files (1-6 q-points, 3-60 modes; each path written twice) are compared number by number.",
             "Trusted: numpy QR/unitary generation and norms in the harness; matdyn line formats as rendered by the harness.",
             "DESIGN.md section 4 C20"),
     "C18": ("model_checking",
             "TLC enumerates every run-static invocation class with the columns, row rule and units it must print (spec/StaticCli.tla); the command is run on in-class synthetic inputs and every printed row is compared with the analytic model; VRH/velocity relations of the rows validated by Trace_Averages.tla",
-            "All mode x table x system x cell-mass x ntv classes (24 sampled quick, all 54 thorough): columns and row positions, F = fit at V (input energies in mode none), P = -dF/dV (analytic and finite differences across rows), density, moduli = finite-strain fit of the table, rho v_phi^2 = K_VRH, pressure-mode rows at the requested pressures, system and cell-mass options; row relations (Hill mean, bounds, rho v^2) validated by TLC.",
-            "Trusted: inputs exactly quadratic in Eulerian strain (the second-order fit is exact); tolerances for the command's numerical differentiation/interpolation depend on ntv; pandas prints six digits.",
+            "All mode x table x system x cell-mass x ntv classes x sampling stride (36 sampled quick, all 360 thorough; INPUT01 volumes descending, ascending or unsorted; pressure grids may start below zero): columns and row positions, F = fit at V (input energies in mode none), P = -dF/dV (analytic and finite differences across rows), density, moduli = finite-strain fit of the table, rho v_phi^2 = K_VRH, pressure-mode rows at the requested pressures, system and cell-mass options; row relations (Hill mean, bounds, rho v^2) validated by TLC.",
+            "Trusted: the second-order reference fit is numpy.polyfit on the file's energies (half of the inputs carry a cubic term, so a fit of another order shows); tolerances for the command's numerical differentiation/interpolation depend on ntv; pandas prints six digits.",
             "DESIGN.md section 4 C18"),
 }
 
